@@ -78,6 +78,16 @@ mutant('m16_gromacs_except_oserror', 'C16', T, "            except Exception as 
 mutant('n16_atomic_write', 'C16', T, "        with open(cache, 'wb') as f:\n            pickle.dump(self, f)",
        "        import os\n        tmp = str(cache) + '.tmp'\n        with open(tmp, 'wb') as f:\n            pickle.dump(self, f)\n        os.replace(tmp, cache)", None,
        'NEGATIVE CONTROL: atomic write via temp file + rename must stay silent')
+mutant('n16_header_format', 'C16', T, "        with open(cache, 'rb') as f:\n            obj = pickle.load(f)\n        return obj",
+       "        with open(cache, 'rb') as f:\n            if f.read(9) != b'GEMDATv1\\n':\n                raise ValueError('not a gemdat cache file')\n            obj = pickle.load(f)\n        return obj", None,
+       'placeholder')
+M.pop()
+M.append({'id': 'n16_header_format', 'prop': 'C16', 'file': T, 'multi': [
+    ("        with open(cache, 'rb') as f:\n            obj = pickle.load(f)\n        return obj",
+     "        with open(cache, 'rb') as f:\n            if f.read(9) != b'GEMDATv1\\n':\n                raise ValueError('not a gemdat cache file')\n            obj = pickle.load(f)\n        return obj"),
+    ("        with open(cache, 'wb') as f:\n            pickle.dump(self, f)",
+     "        with open(cache, 'wb') as f:\n            f.write(b'GEMDATv1\\n')\n            pickle.dump(self, f)"),
+], 'old': None, 'new': None, 'expect': None, 'note': 'NEGATIVE CONTROL: another on-disk format (magic header + pickle) must stay silent'})
 # ---- C20 ---------------------------------------------------------------------------------
 C = 'src/gemdat/caching.py'
 mutant('m20_strong_self', 'C20', C, "            return func(_self(), *args, **kwargs)", "            return func(_self, *args, **kwargs)", 'C20/', 'placeholder', )
@@ -131,12 +141,21 @@ def main():
             shutil.copytree(os.path.join(REPO, 'src'), os.path.join(scratch, 'src'), ignore=shutil.ignore_patterns('__pycache__', '*.egg-info'))
             p = os.path.join(scratch, m['file'])
             s = open(p).read()
-            if s.count(m['old']) != 1:
-                results.append({**{k: m[k] for k in ('id', 'prop')}, 'status': 'MUTATION-DOES-NOT-APPLY', 'count': s.count(m['old'])})
+            if m.get('multi'):
+                bad = [o for o, _ in m['multi'] if s.count(o) != 1]
+                if not bad:
+                    for o, nw in m['multi']:
+                        s = s.replace(o, nw)
+                    open(p, 'w').write(s)
+                    m = dict(m, old='', new='')
+                    s = None
+            if s is not None and (m.get('multi') or s.count(m['old']) != 1):
+                results.append({**{k: m[k] for k in ('id', 'prop')}, 'status': 'MUTATION-DOES-NOT-APPLY'})
                 ok_all = False
-                print(m['id'], 'MUTATION-DOES-NOT-APPLY', s.count(m['old']), flush=True)
+                print(m['id'], 'MUTATION-DOES-NOT-APPLY', flush=True)
                 continue
-            open(p, 'w').write(s.replace(m['old'], m['new']))
+            if s is not None:
+                open(p, 'w').write(s.replace(m['old'], m['new']))
             env = dict(os.environ)
             env.update({'VERIF_REPO_SRC': os.path.join(scratch, 'src'), 'VERIF_BUDGET_S': a.budget, 'VERIF_DET_SEEDS': '0',
                         'VERIF_TMP': os.path.join(scratch, 'tmp'), 'VERIF_SHRINK_WALL': '30', 'VERIF_NO_EVIDENCE': '1',
